@@ -12,5 +12,52 @@ global size_of usize == 8;
 //@@ include prelude/std_specs.rs
 //@@ include prelude/message_items.rs
 
+// ---- constructors: a ZmqMessage has at least one frame (the public constructors refuse to build an empty one) ----
+//@ item src/message.rs :: struct ZmqEmptyMessageError
+//@ end
+pub broadcast axiom fn axiom_vecdeque_from_vec_obeys<T>()
+    ensures #[trigger] <VecDeque<T> as vstd::std_specs::convert::FromSpec<Vec<T>>>::obeys_from_spec();
+pub broadcast axiom fn axiom_vecdeque_from_vec<T>(v: Vec<T>)
+    ensures (#[trigger] <VecDeque<T> as vstd::std_specs::convert::FromSpec<Vec<T>>>::from_spec(v))@ == v@;
+
+impl vstd::std_specs::convert::TryFromSpecImpl<Vec<Bytes>> for ZmqMessage {
+    open spec fn obeys_try_from_spec() -> bool { false }
+    open spec fn try_from_spec(v: Vec<Bytes>) -> Result<Self, ZmqEmptyMessageError> { arbitrary() }
+}
+//@ item src/message.rs :: impl TryFrom<Vec<Bytes>> for ZmqMessage
+//@ fn try_from
+//@ ret r
+//@ spec
+//@|        ensures
+//@|            v@.len() == 0 ==> r is Err,
+//@|            v@.len() > 0 ==> r is Ok && r->Ok_0.fr() == v@,
+//@ hint start
+//@|        broadcast use axiom_vecdeque_from_vec_obeys, axiom_vecdeque_from_vec;
+//@ end
+impl vstd::std_specs::convert::TryFromSpecImpl<VecDeque<Bytes>> for ZmqMessage {
+    open spec fn obeys_try_from_spec() -> bool { false }
+    open spec fn try_from_spec(v: VecDeque<Bytes>) -> Result<Self, ZmqEmptyMessageError> { arbitrary() }
+}
+//@ item src/message.rs :: impl TryFrom<VecDeque<Bytes>> for ZmqMessage
+//@ fn try_from
+//@ ret r
+//@ spec
+//@|        ensures
+//@|            v@.len() == 0 ==> r is Err,
+//@|            v@.len() > 0 ==> r is Ok && r->Ok_0.fr() == v@,
+//@ end
+impl vstd::std_specs::convert::FromSpecImpl<Bytes> for ZmqMessage {
+    open spec fn obeys_from_spec() -> bool { false }
+    open spec fn from_spec(v: Bytes) -> Self { arbitrary() }
+}
+//@ item src/message.rs :: impl From<Bytes> for ZmqMessage
+//@ fn from
+//@ ret r
+//@ spec
+//@|        ensures r.fr() == seq![b],
+//@ hint start
+//@|        broadcast use axiom_vecdeque_from_vec_obeys, axiom_vecdeque_from_vec;
+//@ end
+
 } // verus!
 fn main() {}
